@@ -389,7 +389,7 @@ type pools struct {
 }
 
 type world struct {
-	pl    *pools
+	pl      *pools
 	profs   map[agd.ProfileID]*wProf
 	devs    map[agd.DeviceID]*wDev
 	devVers map[agd.DeviceID]int
@@ -403,7 +403,7 @@ type world struct {
 
 func newWorld(base time.Time, noReuse bool, pl *pools) *world {
 	return &world{
-		pl: pl,
+		pl:    pl,
 		profs: map[agd.ProfileID]*wProf{}, devs: map[agd.DeviceID]*wDev{}, devVers: map[agd.DeviceID]int{},
 		epoch: 1, base: base, retired: map[string]bool{}, noReuse: noReuse, everDev: map[agd.DeviceID]bool{},
 	}
